@@ -3,7 +3,7 @@
    interleaving of pacer answers, clock advances, targeter outcomes, response completions,
    consumption and Stop calls, of any length, for every configuration with maxw >= 1. *)
 From Coq Require Import ZArith List Bool.
-From V Require Import Model.AttackLTS Model.StopRace Proofs.AttackProofs Gen.Skel.
+From V Require Import Model.AttackLTS Model.StopRace Proofs.AttackProofs Model.Accept Proofs.AcceptProofs Gen.Skel.
 Import ListNotations.
 Open Scope Z_scope.
 
@@ -89,3 +89,12 @@ Example c02_example :
                      CloseTicks; WorkerExit; Complete 0; Consume 0; WorkerExit; WgDone; CloseResults; FinalStop])
   = Some ([1; 0], true, 1).
 Proof. reflexivity. Qed.
+
+(* The tie to the code: the harness drives real attacks and the acceptance procedure (Model/Accept.v)
+   keeps the model states compatible with what was observed.  Every state it keeps is reachable in
+   the LTS - so every statement above about reachable states holds of the model states that
+   explain a real run. *)
+Theorem accepted_states_reachable : forall c steps out,
+  drive c steps [init c] 0 = inr out -> forall s, In s out -> reachable c s.
+Proof. exact accepted_reachable_lemma. Qed.
+Print Assumptions accepted_states_reachable.
